@@ -139,6 +139,14 @@ def judge(run, scn: dict, outcome: str, dest: str, before: set, action: tuple, l
         # temporary file of another writer, or what a dead process left behind)
         run.violation(f'the writer removed {gone} which it had not created [outcome {outcome}]', witness={'scenario': scn, 'action': list(action)},
                       case=case, engine=engine, key='foreign-file-removed')
+    # the destination itself is only ever replaced by a rename: the writer never opens it for writing (a fallback that
+    # rewrites it in place is not atomic, whether or not this particular run was interrupted there)
+    dname = os.path.basename(dest)
+    in_place = [f'{k}:{kind} {name}' for k, kind, name in log if name == dname and kind.startswith('open ') and any(c in kind[5:] for c in 'wxa+')]
+    if in_place:
+        run.violation(f'the writer opened the destination itself for writing ({in_place[0]}) [outcome {outcome}]',
+                      witness={'scenario': scn, 'action': list(action), 'boundaries': [f'{k}:{kind} {name}' for k, kind, name in log][:40]},
+                      case=case, engine=engine, key='destination-written-in-place')
     old = OLD if (scn.get('dest_exists', True) and not scn.get('missing_parent')) else None
     new = expected_new(scn)
     what_boundary = next((f'{k}:{kind} {name}' for k, kind, name in log if action[0] != 'none' and k == action[1]), 'none')
@@ -301,6 +309,35 @@ def enumerate_writer(run, thorough: bool) -> None:
             run.sample({'scenario': scn, 'boundaries': [f'{k}:{kind} {name}' for k, kind, name in log]}, 'atomicwriter')
     run.extra['scenarios'] = len(scenarios(thorough))
     run.extra['exhaustive_over_recorded_boundaries'] = True
+
+
+def directory_destination(run) -> None:
+    """The destination path is an existing directory: the commit cannot happen, which is a handled failure like any other -
+    an error is raised, the directory stays as it was and the temporary file is gone."""
+    from srctools import AtomicWriter
+    for is_bytes in (True, False):
+        d = tempfile.mkdtemp(prefix='rv-c12-')
+        try:
+            dest = os.path.join(d, 'output')
+            os.mkdir(dest)
+            with open(os.path.join(dest, 'kept.txt'), 'w') as f:
+                f.write('inside')
+            case = {'scenario': {'dest_is_directory': True, 'is_bytes': is_bytes}}
+            outcome = 'ok'
+            try:
+                with AtomicWriter(dest, is_bytes=is_bytes) as f:
+                    f.write(b'NEW' * 3000 if is_bytes else 'NEW' * 3000)
+            except OSError as exc:
+                outcome = f'handled:{type(exc).__name__}'
+            except Exception as exc:
+                outcome = f'other:{type(exc).__name__}'
+            run.count('directory_destination_runs')
+            inside, beside = sorted(os.listdir(dest)), sorted(os.listdir(d))
+            if not outcome.startswith('handled:') or inside != ['kept.txt'] or beside != ['output']:
+                run.violation(f'writing to a path that is a directory ended with {outcome}; the directory holds {inside}, its parent {beside}',
+                              case=case, engine='atomicwriter', key='directory-destination')
+        finally:
+            shutil.rmtree(d, ignore_errors=True)
 
 
 # ------------------------------------------------------------------ abandoned writers
@@ -670,13 +707,14 @@ def main(run, shard=(0, 1)) -> None:
     enumerate_writer(run, thorough)
     interleavings(run, thorough)
     abandoned(run, thorough)
+    directory_destination(run)
     bsp_engine(run, thorough)
     if thorough:
         strace_engine(run)
     run.exhaustive = False
     probe.report(run)
     probe.check_reached(run)
-    run.require('boundaries_enumerated', 'crash_runs', 'fault_runs', 'directory_inspections', 'interleavings_run', 'bsp_crash_runs', 'bsp_save_boundaries', 'abandon_runs', 'non_oserror_injections', 'interleavings_with_a_reused_writer')
+    run.require('boundaries_enumerated', 'crash_runs', 'fault_runs', 'directory_inspections', 'interleavings_run', 'bsp_crash_runs', 'bsp_save_boundaries', 'abandon_runs', 'non_oserror_injections', 'interleavings_with_a_reused_writer', 'directory_destination_runs')
 
 
 def replay(run, data) -> None:
